@@ -210,6 +210,23 @@ func genOps(md protoreflect.MessageDescriptor) []op {
 					return ""
 				}})
 			}
+			if fd.Kind() == protoreflect.BytesKind {
+				// a value read earlier stays what it was: read element 0, replace it by other bytes of the same length, append
+				// what was read (an implementation that writes the new bytes into the old element's storage changes "old")
+				add(op{"h(" + name + ").Set(0,other)+Append(old)", "List.Set.keeps-old-value/" + shape, true, func(e *env) bool {
+					if !held(e) {
+						return false
+					}
+					l := e.h[fd.Number()].v.List()
+					return l.Len() > 0 && len(l.Get(0).Bytes()) > 0
+				}, func(e *env) string {
+					l := e.h[fd.Number()].v.List()
+					old := l.Get(0)
+					l.Set(0, protoreflect.ValueOfBytes(bytes.Repeat([]byte{0x5a}, len(old.Bytes()))))
+					l.Append(old)
+					return fmt.Sprintf("%x", old.Bytes())
+				}})
+			}
 			add(op{"h(" + name + ").Truncate(0)", "List.Truncate/" + shape, true, held, func(e *env) string {
 				e.h[fd.Number()].v.List().Truncate(0)
 				return ""
@@ -278,6 +295,21 @@ func genOps(md protoreflect.MessageDescriptor) []op {
 				}
 				return fmt.Sprint(mp.Len())
 			}})
+			if fd.MapValue().Kind() == protoreflect.BytesKind {
+				add(op{"h(" + name + ").Set(k0,other)+Set(k1,old)", "Map.Set.keeps-old-value/" + shape, true, func(e *env) bool {
+					if !held(e) {
+						return false
+					}
+					mp := e.h[fd.Number()].v.Map()
+					return mp.Has(k0) && len(mp.Get(k0).Bytes()) > 0
+				}, func(e *env) string {
+					mp := e.h[fd.Number()].v.Map()
+					old := mp.Get(k0)
+					mp.Set(k0, protoreflect.ValueOfBytes(bytes.Repeat([]byte{0x5a}, len(old.Bytes()))))
+					mp.Set(k1, old)
+					return fmt.Sprintf("%x", old.Bytes())
+				}})
+			}
 			add(op{"h(" + name + ").Clear(k0)", "Map.Clear/" + shape, true, held, func(e *env) string {
 				mp := e.h[fd.Number()].v.Map()
 				mp.Clear(k0)
